@@ -15,6 +15,7 @@ Decision slots (entries of Path.dec):
     ('c?', excl)        -- "concretise to anything not in excl" (pending fork)
 """
 import time
+import threading
 import itertools
 import fractions
 import math
@@ -73,7 +74,16 @@ class Ctx:
         if extra:
             self.solver.push()
             self.solver.add(*extra)
-        r = str(self.solver.check())
+        # watchdog: some z3 tactics (nlsat big-number loops) ignore the soft timeout
+        wd = threading.Timer(self.timeout_ms / 1000.0 * 1.5 + 5, z3.main_ctx().interrupt)
+        wd.daemon = True
+        wd.start()
+        try:
+            r = str(self.solver.check())
+        except z3.Z3Exception:
+            r = 'unknown'
+        finally:
+            wd.cancel()
         if r == 'sat':
             self.n_sat += 1
             self._model = self.solver.model()
@@ -213,6 +223,11 @@ def assume(c, check=True):
             raise Abort('assumption infeasible')
 
 
+def axiom(c):
+    """Add a fact that cannot make the path infeasible (no check, not lazy)."""
+    CTX._slot(('A',), c)
+
+
 def choose(n):
     """solver-free nondeterministic choice among n options"""
     if n <= 0:
@@ -272,7 +287,9 @@ def concretize(e):
         if mv.denominator_as_long() != 1:
             raise Abort('non-integer index')
         v = mv.numerator_as_long()
-    p.forks.append(p.dec[:p.pos] + [('c?', excl + (v,))])
+    # fork only if another value is feasible
+    if C.check(*[e != w for w in excl + (v,)]) != 'unsat':
+        p.forks.append(p.dec[:p.pos] + [('c?', excl + (v,))])
     C._slot(('c', v), e == v)
     return v
 
@@ -492,7 +509,7 @@ class SB:
         return 1 if branch(self.e) else 0
 
     def __repr__(self):
-        return 'SB(%s)' % (self.e,)
+        return 'SB#%d' % (self.e.hash() if not isinstance(self.e, bool) else int(self.e),)
 
 
 def mkb(e):
@@ -718,7 +735,13 @@ class S:
         return concretize(self.e)
 
     def __repr__(self):
-        return 'S(%s)' % (self.e,)
+        # cheap on purpose: repo code formats values into exception messages
+        return 'S#%d' % (self.e.hash(),)
+
+    __str__ = __repr__
+
+    def __format__(self, spec):
+        return 'S#%d' % (self.e.hash(),)
 
     # numpy-scalar look-alikes
     def item(self):
@@ -956,7 +979,7 @@ class XR:
         return 0
 
     def __repr__(self):
-        return 'XR(%s,%s)' % (self.inf, self.v)
+        return 'XR#%d' % (self.v.hash(),)
 
 
 # ---------------------------------------------------------------------------
@@ -995,12 +1018,45 @@ class SChar:
         return 7
 
     def __repr__(self):
-        return 'SChar(%s)' % (self.e,)
+        return 'SChar(%s)' % (self.name or self.e.hash(),)
+
+    def __radd__(self, o):
+        # '' + SChar (string building in the repo code)
+        from .sstr import SStr
+        if isinstance(o, str):
+            return SStr(list(o) + [self])
+        return NotImplemented
+
+
+# ---------------------------------------------------------------------------
+# uninterpreted monotone exp (Mono domain)
+# ---------------------------------------------------------------------------
+
+_EXPF = z3.Function('uexp', z3.RealSort(), z3.RealSort())
+
+
+def uexp(x):
+    """exp as an uninterpreted, positive, strictly increasing function.
+    Monotonicity is instantiated pairwise over the exp terms created on the
+    current path (an over-approximation of exp: 'holds' is sound, a model may
+    be spurious and is filtered by replay)."""
+    if _isnum(x):
+        return math.exp(x)
+    p = CTX.cur
+    xe = _real(x.e)
+    t = _EXPF(xe)
+    seen = p.notes.setdefault('exps', [])
+    ax = [t > 0]
+    for (a, ta) in seen:
+        ax.append(z3.And(z3.Implies(a < xe, ta < t), z3.Implies(a > xe, ta > t)))
+    axiom(z3.And(*ax))
+    seen.append((xe, t))
+    return S(t)
 
 
 def model_value(m, e):
     """z3 model value -> python int / Fraction / bool"""
-    if isinstance(e, (int, float, bool, fractions.Fraction)) or e is None:
+    if isinstance(e, (int, float, bool, fractions.Fraction, str)) or e is None:
         return e
     if isinstance(e, S):
         e = e.e
@@ -1021,3 +1077,59 @@ def model_value(m, e):
         a = v.approx(20)
         return fractions.Fraction(a.numerator_as_long(), a.denominator_as_long())
     return str(v)
+
+
+class NXR:
+    """negation of an extended real (value or -inf); only ordering is needed
+    (align_text takes max / argmax of negated costs)."""
+    __slots__ = ('x',)
+    __array_priority__ = 1000
+
+    def __init__(self, x):
+        self.x = XR.of(x)
+
+    @staticmethod
+    def of(o):
+        if isinstance(o, NXR):
+            return o
+        if isinstance(o, float) and o == -INF:
+            return NXR(XR(True, z3.RealVal(0)))
+        if isinstance(o, XR):
+            raise TypeError('mixing XR and NXR')
+        return NXR(XR.of(-o))
+
+    def __neg__(self):
+        return self.x
+
+    def __lt__(self, o):
+        return NXR.of(o).x.__lt__(self.x)
+
+    def __gt__(self, o):
+        return self.x.__lt__(NXR.of(o).x)
+
+    def __le__(self, o):
+        return b_not(self.__gt__(o))
+
+    def __ge__(self, o):
+        return b_not(self.__lt__(o))
+
+    def __eq__(self, o):
+        return self.x.__eq__(NXR.of(o).x)
+
+    def __ne__(self, o):
+        return b_not(self.__eq__(o))
+
+    def __hash__(self):
+        return 0
+
+    def __ite__(self, c, other, self_is_then):
+        o = NXR.of(other)
+        a, b = (self.x, o.x) if self_is_then else (o.x, self.x)
+        return NXR(XR(_zite(c, a.inf, b.inf), z3.If(c, a.v, b.v)))
+
+
+def _xr_neg(self):
+    return NXR(self)
+
+
+XR.__neg__ = _xr_neg
